@@ -204,14 +204,8 @@ func (st *State) intBinop(op token.Token, x, y Int) Value {
 	if x.Bits != y.Bits {
 		panic(fmt.Sprintf("intBinop width mismatch %d %d for %v", x.Bits, y.Bits, op))
 	}
-	if x.T == nil && y.T == nil {
-		// concrete fast path through the term evaluator semantics
-		switch op {
-		case token.QUO, token.REM:
-			if y.C == 0 {
-				panic(goPanic{Msg: "runtime error: integer divide by zero"})
-			}
-		}
+	if y.T == nil && y.C == 0 && (op == token.QUO || op == token.REM) {
+		panic(goPanic{Msg: "runtime error: integer divide by zero"})
 	}
 	a, b := st.term(x), st.term(y)
 	bv := func(o sym.Op) Value { return st.fromTerm(ts.Bin(o, a, b), x.Bits, x.Signed) }
